@@ -389,6 +389,18 @@ def _check_assembly(ctx, co, model):
                 if bad:
                     break
         if bad is None:
+            # a shell changed in place after a first call (the Molden reader switches kinds after construction): the
+            # second call sees the basis as it is now
+            A2 = model.spd()
+            model.run(co, [A2, c])
+            A2.fields["shells"][2].fields["kinds"][0] = "c"
+            fresh_ = model.spd()
+            fresh_.fields["shells"][2].fields["kinds"] = ["c"]
+            k7, Sold = model.run(co, [A2, c])
+            k8, Snew = model.run(co, [fresh_, c])
+            if "raises" in (k7, k8) or _mdiff(Sold, Snew):
+                bad = f"after a shell kind was changed in place following a first call, compute_overlap {'raises ' + str(Sold) if k7 == 'raises' else 'gives another matrix than for a freshly built basis of the same shells (' + str(_mdiff(Sold, Snew)) + ')'}: something computed from the shells is remembered across calls"
+        if bad is None:
             # centres on integer positions, once as an integer array and once as floats: the same matrix
             ci_ = np.array([[0, 0, 0], [1, -1, 2], [-2, 1, 1], [1, 2, -1]])
             ki, Si = model.run(co, [A, ci_])
